@@ -148,7 +148,11 @@ def val_json(v):
     return {"k": "str", "v": cps(v["v"])}
 
 
-def ops_json(ops):
+def ops_json(ops, online_only=False):
+    """online_only: the ops were executed by an ONLINE run only (the setup that brings the database to `start`).  There a
+    bulk_insert(multiinsert=True) is one executemany whose INSERT is compiled from the FIRST row's keys: keys that only later
+    rows carry are dropped (known finding C12-HETERO describes the online/offline difference; in a setup run only the online
+    semantics exists, and the model has to follow it)."""
     out = []
     for o in I.flat_ops(ops):
         k = o["op"]
@@ -167,8 +171,12 @@ def ops_json(ops):
         elif k == "bulk_insert":
             # SQLAlchemy writes the columns in table-definition order; consecutive rows with one key set = one model op
             order = [c["name"] for c in o["cols"]]
+            rows = o["rows"]
+            if online_only and o.get("multiinsert", True) and rows:
+                first = set(rows[0])
+                rows = [{n: v for n, v in r.items() if n in first} for r in rows]
             group, gkeys = [], None
-            for r in o["rows"] + [None]:
+            for r in rows + [None]:
                 keys = None if r is None else [n for n in order if n in r]
                 if group and keys != gkeys:
                     out.append({"op": k, "table": cps(o["table"]), "cols": [cps(n) for n in gkeys], "rows": group})
@@ -179,11 +187,11 @@ def ops_json(ops):
     return out
 
 
-def steps_json(case, steps):
+def steps_json(case, steps, online_only=False):
     out = []
     for st in steps:
         body = case["bodies"].get(st["rev"], {"up": [], "down": []})["up" if st["up"] else "down"] if st["rev"] else []
-        out.append({"comment": cps(st["log"]), "body": ops_json(body), "ver": [[v[0]] + [cps(x) for x in v[1:]] for v in st["ver"]]})
+        out.append({"comment": cps(st["log"]), "body": ops_json(body, online_only), "ver": [[v[0]] + [cps(x) for x in v[1:]] for v in st["ver"]]})
     return out
 
 
@@ -440,7 +448,7 @@ def flush(ctx, pending):
         if inlang:
             base = {"start": [cps(x) for x in case["start"]], "steps": steps_json(case, res["steps_offline"])}
             ops.append({"op": "off.emit", **base})
-            ops.append({"op": "off.run", **base, "setup": [steps_json(case, ss) for ss in res["setup_steps"]]})
+            ops.append({"op": "off.run", **base, "setup": [steps_json(case, ss, online_only=True) for ss in res["setup_steps"]]})
         else:
             ops.append({"op": "off.skip"})
             ops.append({"op": "off.skip"})
